@@ -270,7 +270,7 @@ def optimal_cases(draw, max_kernel=18, n_random=12):
     # a third of the cases sit just below the bound, where one kind of edge
     # is almost free and the optimum is most sensitive to the weights
     if p * hi >= 0.5 - 1e-3 or draw(st.integers(0, 2)) == 0:
-        p = min(1.0, draw(st.sampled_from([0.45, 0.8, 0.9, 0.98])) * 0.5 / hi)
+        p = min(1.0, draw(st.sampled_from([0.45, 0.8, 0.9, 0.98, 0.998])) * 0.5 / hi)
     et = draw(st.sampled_from([None, None, 'X', 'Z']))
     return {'kind': 'optimal', 'decoder': 'MatchingDecoder',
             'dparams': {} if et is None else {'error_type': et},
